@@ -418,6 +418,8 @@ package connect
 //@   assigns out(w.writer), view(env.Data)
 //@   ensures res == nil ==> appendsFrame(out(w.writer), old(out(w.writer)), env.Flags, old(view(env.Data)))     // label: writes-one-frame
 //@   ensures res != nil ==> asErr(res) == res                                                                  // label: errors-are-coded
+//@   ensures called("io.Writer.Write", 1) && coded(callres("io.Writer.Write", 1, 1)) ==> res == asErr(callres("io.Writer.Write", 1, 1))   // label: coded-writer-error-passes-through-prefix   // tags: C15
+//@   ensures called("io.Copy", 1) && coded(callres("io.Copy", 1, 1)) ==> res == asErr(callres("io.Copy", 1, 1))   // label: coded-writer-error-passes-through-payload   // tags: C15
 //@   ensures res != nil ==> |out(w.writer)| >= |old(out(w.writer))| && out(w.writer)[:|old(out(w.writer))|] == old(out(w.writer))   // label: failed-write-only-appends   // tags: C04
 
 //@ func (*envelopeWriter).Write(w, env) res
@@ -879,3 +881,60 @@ package connect
 //@   ensures err == nil ==> res == nil
 //@   ensures err != nil ==> res != nil
 //@   ensures coded(err) ==> res == err                                                               // label: coded-errors-pass-through
+//@   ensures forall t ref :: {Is(res, t)} !fresh(t) && Is(res, t) && !coded(res) ==> Is(err, t)     // label: an-uncoded-result-adds-nothing-to-the-chain
+
+// ---------------------------------------------------------------------------
+// duplex_http_call.go (sequential fragment: C15 classification, sticky error)
+// ---------------------------------------------------------------------------
+
+// classified(e): e is not an uncoded context error.
+//@ macro classified(e ref) bool = e == nil || coded(e) || (!Is(e, context.Canceled) && !Is(e, context.DeadlineExceeded))
+
+// Sequential abstractions of the concurrent parts (trusted): starting the
+// request goroutine has no effect on the modelled state at the call; waiting
+// for the response makes d.response and d.err whatever makeRequest stored,
+// the error being kept once set and classified (makeRequest stores errors
+// through SetError only, proved below).
+//@ trusted func (*duplexHTTPCall).ensureRequestMade(d)
+//@   requires d != nil
+//@ trusted func (*duplexHTTPCall).BlockUntilResponseReady(d)
+//@   requires d != nil
+//@   assigns d.response, d.err
+//@   ensures old(d.err) != nil ==> d.err == old(d.err)
+//@   ensures classified(d.err)
+//@   ensures d.response != nil ==> d.response.Body != nil && !pooled(d.response.Body)
+
+//@ func (*duplexHTTPCall).getError(d) res
+//@   tags C15, C04
+//@   requires d != nil
+//@   ensures res == d.err
+
+//@ func (*duplexHTTPCall).SetError(d, err)
+//@   tags C15, C04
+//@   requires d != nil && d.requestBodyReader != nil
+//@   assigns d.err, pclosed(d.requestBodyReader)
+//@   ensures old(d.err) != nil ==> d.err == old(d.err)                                              // label: first-error-is-kept
+//@   ensures old(d.err) == nil && err != nil ==> d.err != nil && classified(d.err) && (coded(err) ==> d.err == err)   // label: stores-the-classified-error
+//@   ensures old(d.err) == nil && err != nil && !coded(err) && Is(err, context.Canceled) ==> codeOf(d.err) == 1
+//@   ensures old(d.err) == nil && err != nil && !coded(err) && !Is(err, context.Canceled) && Is(err, context.DeadlineExceeded) ==> codeOf(d.err) == 4
+//@   ensures pclosed(d.requestBodyReader)                                                           // label: closes-the-request-pipe-so-writes-fail
+
+//@ func (*duplexHTTPCall).Write(d, data) (n, err)
+//@   tags C15, C04
+//@   requires d != nil && d.ctx != nil && d.requestBodyReader != nil && d.requestBodyWriter != nil && peer(d.requestBodyWriter) == d.requestBodyReader
+//@   assigns d.err, pclosed(d.requestBodyReader), cdone(d.ctx)
+//@   ensures callres("context.Context.Err", 1) == context.Canceled ==> n == 0 && err != nil && coded(err) && codeOf(err) == 1 && d.err != nil   // label: canceled-before-write
+//@   ensures callres("context.Context.Err", 1) == context.DeadlineExceeded ==> n == 0 && err != nil && coded(err) && codeOf(err) == 4 && d.err != nil   // label: expired-before-write
+//@   ensures callres("context.Context.Err", 1) == nil && old(pclosed(d.requestBodyReader)) ==> err == io.EOF   // label: write-after-the-call-failed-reports-eof
+
+//@ func (*duplexHTTPCall).Read(d, data) (n, err)
+//@   tags C15, C03, C04
+//@   requires d != nil && d.ctx != nil && d.requestBodyReader != nil && d.request != nil && (d.response != nil ==> d.response.Body != nil && !pooled(d.response.Body))
+//@   assigns d.err, d.response, pclosed(d.requestBodyReader), cdone(d.ctx), elems(data), rest(all)
+//@   ensures err != nil ==> classified(err)                                                          // label: context-errors-are-always-coded
+//@   ensures called("context.Context.Err", 1) && callres("context.Context.Err", 1) == context.Canceled ==> n == 0 && coded(err) && codeOf(err) == 1   // label: canceled-before-read
+//@   ensures called("context.Context.Err", 1) && callres("context.Context.Err", 1) == context.DeadlineExceeded ==> n == 0 && coded(err) && codeOf(err) == 4   // label: expired-before-read
+//@   ensures old(d.err) != nil ==> n == 0 && err == old(d.err)                                      // label: error-is-sticky
+//@   ensures called("io.ReadCloser.Read", 1) ==> n == callres("io.ReadCloser.Read", 1, 0) && (callres("io.ReadCloser.Read", 1, 1) == nil ==> err == nil) && (coded(callres("io.ReadCloser.Read", 1, 1)) ==> err == callres("io.ReadCloser.Read", 1, 1))   // label: passes-the-body's-read-through
+//@   ensures called("io.ReadCloser.Read", 1) && Is(callres("io.ReadCloser.Read", 1, 1), context.Canceled) && !coded(callres("io.ReadCloser.Read", 1, 1)) ==> coded(err) && codeOf(err) == 1   // label: cancellation-reported-by-the-body-is-canceled
+//@   ensures called("io.ReadCloser.Read", 1) && !Is(callres("io.ReadCloser.Read", 1, 1), context.Canceled) && Is(callres("io.ReadCloser.Read", 1, 1), context.DeadlineExceeded) && !coded(callres("io.ReadCloser.Read", 1, 1)) ==> coded(err) && codeOf(err) == 4   // label: expiry-reported-by-the-body-is-deadline-exceeded
